@@ -118,6 +118,13 @@ def cases(rng):
         for b in CT:
             ok = a == b or (a in INTS and b in INTS) or (a, b) in (('u8', 'char8'), ('char8', 'u8')) or (a == 'bool' and b in INTS)
             out.append(('fn f(c: %s)\n{\n\tvar r = c as %s;\n}\n' % (a, b), 'accept' if ok else 'reject:552', '%s as %s' % (a, b)))
+    # assignments through member/element chains are type-checked like any other assignment
+    out.append(('struct S\n{\n\tarr: [4]i32,\n}\n\nfn main()\n{\n\tvar s: S = S { arr: [1, 2, 3, 4] };\n\tvar u: u8 = 1;\n\ts.arr[1] = u;\n}\n',
+                'reject:504', 'a u8 assigned to an element of an [4]i32 member'))
+    out.append(('struct S\n{\n\tarr: [4]i32,\n\tb: bool,\n}\n\nfn main()\n{\n\tvar s: S = S { arr: [1, 2, 3, 4], b: true };\n\ts.arr[0] = s.b;\n}\n',
+                'reject:504', 'a bool member assigned to an element of an [4]i32 member'))
+    out.append(('struct S\n{\n\tx: i32,\n}\n\nfn main()\n{\n\tvar s: S = S { x: 1 };\n\tvar u: u8 = 1;\n\ts.x = u;\n}\n', 'reject:504', 'a u8 assigned to an i32 member'))
+    out.append(('fn main()\n{\n\tvar a: [3]i32 = [1, 2, 3];\n\tvar u: u8 = 1;\n\ta[1] = u;\n}\n', 'reject:504', 'a u8 assigned to an element of an [3]i32 array'))
     # pointers to sized arrays: the length is part of the type
     for (la, lb) in ((3, 5), (5, 3), (1, 2)):
         out.append(('fn g(p: &[%d]i32)\n{\n}\n\nfn f()\n{\n\tvar m: [%d]i32 = [%s];\n\tg(&m);\n}\n' % (lb, la, ', '.join('1' for _ in range(la))),
